@@ -384,7 +384,8 @@ spif_str_append(spif_str_t self, spif_str_t other)
         /* A string which has no buffer yet needs room for the terminator, too. */
         self->size += other->size - ((self->size) ? (1) : (0));
         self->s = (spif_charptr_t) REALLOC(self->s, self->size);
-        memcpy(self->s + self->len, SPIF_STR_STR(other), other->len + 1);
+        /* other may be self, in which case the terminators overlap. */
+        memmove(self->s + self->len, SPIF_STR_STR(other), other->len + 1);
         self->len += other->len;
     }
     return TRUE;
